@@ -982,10 +982,34 @@ struct BumpSim {
         }
         CTransactionRef N = MakeTransactionRef(mtx);
         Remember(N);
+        // A second replacement of the same transaction, prepared (created and signed) before the first one is committed - two
+        // confirmation dialogs, or two RPC threads. Committing it after the first must be refused.
+        std::optional<CMutableTransaction> second;
+        if (N->GetHash().ToUint256().GetUint64(0) % 3 == 0) {
+            CMutableTransaction m2;
+            std::vector<bilingual_str> e2;
+            CAmount of2 = 0, nf2 = 0;
+            if (wallet::feebumper::CreateRateBumpTransaction(*w, id, cc, e2, of2, nf2, m2, /*require_mine=*/true, outputs, oci) == wallet::feebumper::Result::OK && wallet::feebumper::SignTransaction(*w, m2)) {
+                second = m2;
+                Remember(MakeTransactionRef(m2));
+            }
+        }
         rec->evs.clear();
         Txid new_id;
         wallet::feebumper::Result cres = wallet::feebumper::CommitTransaction(*w, id, std::move(mtx), errors, new_id);
         node().DrainSignals();
+        if (second && cres == wallet::feebumper::Result::OK) {
+            const Txid id2 = second->GetHash();
+            const size_t ntx = WITH_LOCK(w->cs_wallet, return w->mapWallet.size());
+            std::vector<bilingual_str> e3;
+            Txid nid2;
+            wallet::feebumper::Result c2 = wallet::feebumper::CommitTransaction(*w, id, std::move(*second), e3, nid2);
+            node().DrainSignals();
+            ctx.probe("stale_second_replacement_commit_attempted");
+            const size_t ntx2 = WITH_LOCK(w->cs_wallet, return w->mapWallet.size());
+            if (id2 != N->GetHash() && (c2 == wallet::feebumper::Result::OK || ntx2 != ntx))
+                ctx.failf("already-replaced-tx-bumped", "a second replacement %s of %s, prepared before the first (%s) was committed, was committed afterwards (result %d, wallet transactions %zu -> %zu)", Hx(id2).c_str(), Hx(id).c_str(), Hx(N->GetHash()).c_str(), (int)c2, ntx, ntx2);
+        }
         if (cres != wallet::feebumper::Result::OK)
             ctx.failf("bump-commit-refused-after-create", "CommitTransaction refused the replacement of %s right after CreateRateBumpTransaction accepted it: %s", Hx(id).c_str(), errors.empty() ? "" : errors[0].original.c_str());
         // the harness's record follows the wallet's acknowledgement
